@@ -3,6 +3,7 @@ import CogentModel.Proofs.Optimiser
 import CogentModel.Proofs.OptimiserProj
 import CogentModel.Proofs.OptimiserScoped
 import Mathlib.Algebra.Order.Group.Defs
+import Mathlib.Algebra.Order.Group.Int
 /-! # C16 — nested-model initialisation and optimisation never lose likelihood
 
 Property theorems about the model `Model/Optimiser.lean` of
@@ -53,6 +54,11 @@ def exA : Cfg Nat Int :=
 example :
     (maximise exA 2 [1, 9, 3, 5, 6, 7]).final = .done 10 5 4 (some (.maxEvals 4)) ∧
     (maximise exA 2 [1, 9, 3, 5, 6, 7]).st.calls = [5, 5, 3, 1, 2] := by decide
+
+/-- (audit) the hypotheses themselves are satisfied by `exA` (start 2 with value 1): the theorem
+instantiated, not only its conclusion recomputed -/
+example := maximise_never_worse exA (fun _ _ => rfl) 2 1 (by decide) (by decide) (by decide)
+  (by decide) (by decide) [1, 9, 3, 5, 6, 7]
 
 /-- **Only in-bounds points ever reach the objective; the applied point is in bounds.**
 Unconditional: any objective, any comparison, any start (valid or not), any optimiser. -/
@@ -146,6 +152,11 @@ theorem lr_nonneg [LinearOrder Y] [AddCommGroup Y] [IsOrderedAddMonoid Y] (cA : 
 
 example : (maximise exA 2 []).final = .done 1 2 1 none ∧ (0 : Int) ≤ (1 - 1) + (1 - 1) := by decide
 
+/-- (audit) `lr_nonneg` instantiated on a run in which the optimiser DOES move (start value 1,
+reported value 10, LR = 18) -/
+example := lr_nonneg exA (fun _ _ => rfl) 2 1 (by decide) (by decide) (by decide) (by decide)
+  (by decide) [1, 9, 3, 5, 6, 7]
+
 /-! ## `Calculator.optimise`: start values are clamped into the bounds -/
 
 /-- If both `numpy.allclose` tests of `Calculator.optimise` succeed (every coordinate below its
@@ -163,6 +174,17 @@ theorem start_clamp_in_bounds {R : Type} [LinearOrder R] (close : R → R → Bo
 
 example : (clampStart (fun a b : Int => decide (a < b)) (fun a b => decide (a - b ≤ 1 ∧ b - a ≤ 1))
     [⟨-1, 0, 10⟩, ⟨11, 0, 10⟩, ⟨5, 0, 10⟩]).map (·.x) = [0, 10, 5] := by decide
+
+/-- (audit) both `allclose` hypotheses and `lo ≤ hi` hold for that vector: theorem instantiated -/
+example := start_clamp_in_bounds (fun a b : Int => decide (a - b ≤ 1 ∧ b - a ≤ 1))
+  [⟨-1, 0, 10⟩, ⟨11, 0, 10⟩, ⟨5, 0, 10⟩] (by decide) (by decide) (by decide)
+
+/-- (audit) the hypotheses are NOT automatic: one coordinate further away than `allclose` accepts
+and the low side is not clamped at all, the vector handed to `maximise` is out of bounds (the
+first evaluation then raises "Initial parameter values must be valid") -/
+example : inBounds (fun a b : Int => decide (a < b))
+    (clampStart (fun a b : Int => decide (a < b)) (fun a b => decide (a - b ≤ 1 ∧ b - a ≤ 1))
+      [⟨-1, 0, 10⟩, ⟨-5, 0, 10⟩]) = false := by decide
 
 /-! ## nested parameter projection -/
 
@@ -232,6 +254,63 @@ example : paramMapping exGTR exHKY
     = .ok [("kappa", ["A/G", "C/T"]), ("ref_cell", ["A/C", "A/T", "C/G", "ref_cell"])] := by decide
 /-- a non-nested pair is rejected: GTR is not nested in HKY85 -/
 example : paramMapping exHKY exGTR = .error .assertion := by decide
+
+/-- (audit) `mprobs` / `length` pass through -/
+def passLM : String → Bool := fun n => n == "length" || n == "mprobs"
+
+/-- (audit) what the projection emits for HKY85 rules into GTR (two `kappa` rules = two edge scopes) -/
+example : (chosenAll exGTR exHKY).map (fun ch =>
+      projectSame "ref_cell" passLM exGTR ch [("kappa", (3 : Int)), ("length", 7), ("kappa", 5)])
+    = .ok [("A/G", 3), ("C/T", 3), ("length", 7), ("A/G", 5), ("C/T", 5)] := by decide
+
+/-- (audit) `projection_exact` instantiated: ALL its hypotheses (`nestedSame`, rule names, pass
+names) are satisfied by the real HKY85 ⊂ GTR coordinate families and a non-trivial rule list -/
+example := projection_exact (V := Int) "ref_cell" passLM exGTR exHKY (by decide)
+  [("kappa", 3), ("length", 7), ("kappa", 5)]
+  (by
+    intro r hr hp
+    simp only [List.mem_cons, List.mem_nil_iff, or_false] at hr
+    rcases hr with rfl | rfl | rfl
+    · exact ⟨by decide, _, List.mem_cons_self⟩
+    · exact absurd hp (by decide)
+    · exact ⟨by decide, _, List.mem_cons_self⟩)
+  (by
+    intro n hn
+    have : n = "length" ∨ n = "mprobs" := by simpa [passLM] using hn
+    rcases this with rfl | rfl <;> exact ⟨by decide, by decide⟩)
+
+/-- **(audit) The projection works rule by rule.**  `update_param_rules` maps each nested rule
+separately (`rule_dict = rule.copy()` keeps its scope), so the projected image of a concatenation is
+the concatenation of the images.  This is what licenses reading `projection_exact` per edge: the
+rules of the result whose scope contains an edge are the image of the nested rules whose scope
+contains it (`projection_exact_sublist`).  NOTE the model's rules are `(name, value)` pairs: scopes
+are not represented, `cellRate` multiplies over ALL rules of the list. -/
+theorem projection_rule_by_rule {N V : Type} [DecidableEq N] (ref : N) (pass : N → Bool)
+    (rich : Coords N) (ch : List (N × Option N)) (l1 l2 : List (N × V)) :
+    projectSame ref pass rich ch (l1 ++ l2)
+      = projectSame ref pass rich ch l1 ++ projectSame ref pass rich ch l2 := by
+  simp [projectSame, List.flatMap_append]
+
+/-- **(audit) `projection_exact` for every selected sub-list of the nested rules** (think
+`sel r` = "the scope of `r` contains edge `e`"): the exchangeabilities agree edge by edge, not only
+as a product over all scopes. -/
+theorem projection_exact_sublist {N V : Type} [DecidableEq N] [Monoid V] (ref : N) (pass : N → Bool)
+    (rich simple : Coords N) (hnest : nestedSame ref rich simple = true) (rules : List (N × V))
+    (hnames : ∀ r ∈ rules, pass r.1 = false → r.1 ≠ ref ∧ ∃ cs, (r.1, cs) ∈ simple)
+    (hpass : ∀ n, pass n = true → coordsOf rich n = [] ∧ coordsOf simple n = [])
+    (sel : N × V → Bool) :
+    ∃ ch, chosenAll rich simple = .ok ch ∧ ∀ cell ∈ cellsOf rich ++ cellsOf simple,
+      cellRate (· * ·) 1 rich (projectSame ref pass rich ch (rules.filter sel)) cell
+        = cellRate (· * ·) 1 simple (rules.filter sel) cell :=
+  projection_exact ref pass rich simple hnest (rules.filter sel)
+    (fun r hr hp => hnames r (List.mem_filter.mp hr).1 hp) hpass
+
+example : ∃ ch, chosenAll exGTR exHKY = .ok ch ∧
+    cellRate (· * ·) (1 : Int) exGTR
+        (projectSame "ref_cell" passLM exGTR ch ([("kappa", (3 : Int)), ("length", 7), ("kappa", 5)].filter (fun r => r.2 != 5))) (2, 3)
+      = 3 := by
+  refine ⟨_, rfl, ?_⟩
+  decide
 
 /-! ## `update_scoped_rules` (model `Model/ScopedRules.lean`, the code as it is now) -/
 section ScopedSec
@@ -304,6 +383,90 @@ theorem scoped_rules_wf_needed_counter :
 /-- more than one overlapping null scope for an edge-scoped rich rule is refused (ValueError) -/
 example : updateScoped (fun s : String => [s]) [⟨"p", some ["a", "b"], false, (1 : Nat)⟩]
     [⟨"p", some ["a"], false, 5⟩, ⟨"p", some ["b"], false, 7⟩] = .error .valueError := by decide
+
+/-! ### audit additions: the well-formedness that REAL rule lists satisfy -/
+
+/-- the real `chars`: `set("Human") = {'H','u','m','a','n'}` -/
+def realChars : String → List String := fun s => s.toList.map String.singleton
+
+/-- rule lists of the shape `get_param_rules()` really produces (replayed: per-edge rules are
+written `"edge": name`, clades `"edges": [...]`, `mprobs` unscoped): null = HKY85 with kappa shared
+on the clade {Chimp, Human}; rich = HKY85 with per-edge kappa -/
+def exNullReal : List (Rule String Nat) :=
+  [⟨"kappa", some ["Chimp", "Human"], false, 3⟩, ⟨"kappa", some ["Rhesus"], true, 5⟩,
+   ⟨"mprobs", none, false, 9⟩,
+   ⟨"length", some ["Chimp"], true, 2⟩, ⟨"length", some ["Human"], true, 4⟩, ⟨"length", some ["Rhesus"], true, 6⟩]
+def exRichReal : List (Rule String Nat) :=
+  [⟨"kappa", some ["Chimp"], true, 1⟩, ⟨"kappa", some ["Human"], true, 1⟩, ⟨"kappa", some ["Rhesus"], true, 1⟩,
+   ⟨"mprobs", none, false, 1⟩,
+   ⟨"length", some ["Chimp"], true, 1⟩, ⟨"length", some ["Human"], true, 1⟩, ⟨"length", some ["Rhesus"], true, 1⟩]
+
+/-- **The hypothesis `WF` of `scoped_rules_preserve_values` is FALSE on real rule lists** (with the
+real `chars`): its clause `quirk` fails for every null rule written `"edge": "Human"`, and every
+`get_param_rules()` output contains such `length` rules.  The executable check `wfrB` (sufficient for
+the weaker `WFr`) holds for the same lists. -/
+theorem scoped_wf_excludes_real_rule_lists_counter :
+    ¬ WF realChars (keyed exRichReal) (keyed exNullReal) ∧
+    wfrB realChars (keyed exRichReal) (keyed exNullReal) = true := by
+  refine ⟨?_, by decide +kernel⟩
+  intro h
+  have := h.quirk ⟨"length", some ["Human"], true, 4⟩ (by decide +kernel)
+  revert this
+  decide +kernel
+
+/-- **`scoped_rules_preserve_values` under the weaker well-formedness `WFr`** (the `quirk` clause
+only for null rules that no rich rule key-matches — the only ones that reach the name-matching
+loop).  Strictly stronger than `scoped_rules_preserve_values` (`WF.toWFr`). -/
+theorem scoped_rules_preserve_values_r {S V : Type} [DecidableEq S] (chars : S → List S)
+    (rich null : List (Rule S V)) (wf : WFr chars (keyed rich) (keyed null))
+    (out : List (Rule S V)) (h : updateScoped chars rich null = .ok out) :
+    ∀ o ∈ out, ∀ e, covers o e = true →
+      ∀ n ∈ keyed null, n.par = o.par → covers n e = true → o.val = n.val := by
+  intro o ho e hoe n hn hp hne
+  obtain ⟨r, hr, a, ha, hoa⟩ := updateAll_mem chars (keyed rich) (keyed null) (keyed rich) out h o ho
+  exact updateOne_sound_r chars (keyed rich) (keyed null) wf r hr a ha o hoa e hoe n hn hp hne
+
+/-- **… and with the hypothesis replaced by the executable test `wfrB`** that the driver evaluates
+on the rule lists captured from the real `initialise_from_nested` (harness stream (F)). -/
+theorem scoped_rules_preserve_values_checked {S V : Type} [DecidableEq S] [DecidableEq V]
+    (chars : S → List S) (rich null : List (Rule S V))
+    (hwf : wfrB chars (keyed rich) (keyed null) = true)
+    (out : List (Rule S V)) (h : updateScoped chars rich null = .ok out) :
+    ∀ o ∈ out, ∀ e, covers o e = true →
+      ∀ n ∈ keyed null, n.par = o.par → covers n e = true → o.val = n.val :=
+  scoped_rules_preserve_values_r chars rich null (wfrB_sound hwf) out h
+
+/-- non-vacuity on the real-shaped lists, real `chars`: clade kappa 3 lands on both per-edge rules -/
+example : updateScoped realChars exRichReal exNullReal = .ok
+    [⟨"kappa", some ["Chimp"], true, 3⟩, ⟨"kappa", some ["Human"], true, 3⟩, ⟨"kappa", some ["Rhesus"], true, 5⟩,
+     ⟨"mprobs", none, false, 9⟩,
+     ⟨"length", some ["Chimp"], true, 2⟩, ⟨"length", some ["Human"], true, 4⟩, ⟨"length", some ["Rhesus"], true, 6⟩] := by
+  decide +kernel
+example := scoped_rules_preserve_values_checked realChars exRichReal exNullReal (by decide +kernel) _
+  (by decide +kernel : updateScoped realChars exRichReal exNullReal = .ok
+    [⟨"kappa", some ["Chimp"], true, 3⟩, ⟨"kappa", some ["Human"], true, 3⟩, ⟨"kappa", some ["Rhesus"], true, 5⟩,
+     ⟨"mprobs", none, false, 9⟩,
+     ⟨"length", some ["Chimp"], true, 2⟩, ⟨"length", some ["Human"], true, 4⟩, ⟨"length", some ["Rhesus"], true, 6⟩])
+
+/-- **(audit) Unconditional: an explicitly scoped rich rule is never dropped, split or re-scoped.**
+Whatever the two rule lists (no well-formedness needed), if `update_scoped_rules` returns, every rule
+of the rich dict view that names its edges reappears in the result with the same parameter, the same
+scope and the same spelling; only its value may change.  (The value statements above say WHICH
+value; this says the rule is still there.  A FREE rich rule, by contrast, is replaced by per-edge
+rules for the edges of the matching null rules only — edges no null rule names lose the rule.) -/
+theorem scoped_rules_keep_scoped_rules {S V : Type} [DecidableEq S] (chars : S → List S)
+    (rich null : List (Rule S V)) (out : List (Rule S V)) (h : updateScoped chars rich null = .ok out) :
+    ∀ r ∈ keyed rich, ∀ es, r.edges = some es →
+      ∃ o ∈ out, o.par = r.par ∧ o.edges = r.edges ∧ o.single = r.single := by
+  intro r hr es hes
+  obtain ⟨a, ha, hsub⟩ := updateAll_sub chars (keyed rich) (keyed null) (keyed rich) out h r hr
+  obtain ⟨v, rfl⟩ := updateOne_keeps_scope chars (keyed rich) (keyed null) r es hes a ha
+  exact ⟨_, hsub _ List.mem_cons_self, rfl, rfl, rfl⟩
+
+/-- the remark about free rules, concretely: null names only edge `a`; the free rich rule survives
+for `a` alone -/
+example : updateScoped (fun s : String => [s]) [⟨"p", none, false, (1 : Nat)⟩]
+    [⟨"p", some ["a"], false, 7⟩] = .ok [⟨"p", some ["a"], true, 7⟩] := by decide
 
 end ScopedSec
 
